@@ -3,11 +3,15 @@ import Rare.Model.C02Rx
 Parser for the fragment of Go's regexp syntax that `Model/C02Rx` gives a meaning to, in both of the
 wrapper's modes: Perl (`regexp.Compile`: `syntax.Perl` = `ClassNL | OneLine | PerlX | UnicodeGroups`) and
 POSIX (`regexp.CompilePOSIX`: no flag at all – no `(?…)` groups, no lazy operators, no `\d \w \s \b \A \z`,
-`^` `$` are line-wise, a negated class does not contain the line feed).  Counted repetition `{n}` `{n,}`
-`{n,m}` is unfolded the way `syntax.Simplify` does and limited as `repeatIsValid` does (`need`).
-Everything else (flags other than a leading `(?i)`, POSIX classes, non-ASCII, `*` `+` `{n,}` over bodies that
-can match the empty text, doubled repetition operators, a `{` that is not a repetition, …) is refused
-(`none` → the driver answers `unmodelled`).  The parser is compared with the real engine by the `rx` cases.
+`^` `$` are line-wise, a negated class does not contain the line feed, `-` inside a class only first or last).
+Counted repetition `{n}` `{n,}` `{n,m}` is unfolded the way `syntax.Simplify` does and limited as
+`repeatIsValid` does (`need`); a `{` that does not start a repetition, `}` and `]` are literals.
+Flag groups `(?flags)` / `(?flags:…)` with `i m s U` and `-` (valid until the enclosing group closes, as in
+`parsePerlFlags`), `\Q…\E`, `\xHH` `\x{H…}` and octal escapes, `\a \v`, POSIX classes `[[:alpha:]]` /
+`[[:^alpha:]]` and negated Perl classes inside brackets, `]` first in a class.
+Everything else (`\pL`, `\C`, non-ASCII, `*` `+` `{n,}` over bodies that can match the empty text, doubled repetition
+operators, …) is refused (`none` → the driver answers `unmodelled`).  The parser is compared with the real engine
+by the `rx` cases.
 
 Group numbering is Go's: every capturing `(` takes the next number in the order of the opening
 parentheses, named or not; `(?:` does not count.
@@ -20,84 +24,163 @@ structure PSt where
   names : List Bytes := []
   /-- synthesized: the smallest `n` for which `repeatIsValid(e, n)` holds, `e` = the expression just parsed -/
   need : Nat := 0
+  /-- the parser's current flags: `i` (FoldCase), `s` (DotNL), `m` (OneLine off), `U` (NonGreedy) -/
+  fold : Bool := false
+  dotNL : Bool := false
+  multi : Bool := false
+  swap : Bool := false
 
 abbrev PR := Option (Re × Bytes × PSt)
+abbrev Rg := UInt8 × UInt8
 
-def digitR : List (UInt8 × UInt8) := [(48, 57)]
-def wordR : List (UInt8 × UInt8) := [(48, 57), (65, 90), (95, 95), (97, 122)]
-def spaceR : List (UInt8 × UInt8) := [(9, 10), (12, 13), (32, 32)]
+def digitR : List Rg := [(48, 57)]
+def wordR : List Rg := [(48, 57), (65, 90), (95, 95), (97, 122)]
+def spaceR : List Rg := [(9, 10), (12, 13), (32, 32)]
 
 /-- `(?i)`: a range also matches the other case of its letters -/
-def foldRange (r : UInt8 × UInt8) : List (UInt8 × UInt8) :=
+def foldRange (r : Rg) : List Rg :=
   let lo := if r.1 ≤ 97 then 97 else r.1
   let hi := if r.2 ≤ 122 then r.2 else 122
   let lo2 := if r.1 ≤ 65 then 65 else r.1
   let hi2 := if r.2 ≤ 90 then r.2 else 90
   r :: (if lo ≤ hi then [(lo - 32, hi - 32)] else []) ++ (if lo2 ≤ hi2 then [(lo2 + 32, hi2 + 32)] else [])
 
-def mkCls (fold neg : Bool) (rs : List (UInt8 × UInt8)) : Re :=
-  .cls neg (if fold then rs.flatMap foldRange else rs)
+def foldAll (fold : Bool) (rs : List Rg) : List Rg := if fold then rs.flatMap foldRange else rs
 
-def isPunct (b : UInt8) : Bool :=
-  b < 0x80 && b > 0x20 && b != 0x7f && !((48 ≤ b && b ≤ 57) || (65 ≤ b && b ≤ 90) || (97 ≤ b && b ≤ 122))
+def mkCls (fold neg : Bool) (rs : List Rg) : Re := .cls neg (foldAll fold rs)
 
-/-- `\x` outside and inside a class: a perl class or one literal byte -/
-def escape (perl : Bool) (b : UInt8) : Option (Bool × List (UInt8 × UInt8)) :=
-  if b = 0x64 then (if perl then some (false, digitR) else none)        -- \d   (PerlX only)
-  else if b = 0x44 then (if perl then some (true, digitR) else none)    -- \D
-  else if b = 0x77 then (if perl then some (false, wordR) else none)    -- \w
-  else if b = 0x57 then (if perl then some (true, wordR) else none)     -- \W
-  else if b = 0x73 then (if perl then some (false, spaceR) else none)   -- \s
-  else if b = 0x53 then (if perl then some (true, spaceR) else none)    -- \S
-  else if b = 0x6e then some (false, [(10, 10)])  -- \n
-  else if b = 0x74 then some (false, [(9, 9)])    -- \t
-  else if b = 0x72 then some (false, [(13, 13)])  -- \r
-  else if b = 0x66 then some (false, [(12, 12)])  -- \f
-  else if isPunct b then some (false, [(b, b)])
+/-- the bytes outside a set of ranges (a negated item INSIDE a bracket expression) -/
+def compl (rs : List Rg) : List Rg :=
+  ((List.range 256).filter fun n => !(rs.any fun r => r.1.toNat ≤ n && n ≤ r.2.toNat)).map fun n => (n.toUInt8, n.toUInt8)
+
+def isAlnum (b : UInt8) : Bool := (48 ≤ b && b ≤ 57) || (65 ≤ b && b ≤ 90) || (97 ≤ b && b ≤ 122)
+def isOct (b : UInt8) : Bool := 48 ≤ b && b ≤ 55
+def hexVal (b : UInt8) : Option Nat :=
+  if 48 ≤ b && b ≤ 57 then some (b.toNat - 48)
+  else if 97 ≤ b && b ≤ 102 then some (b.toNat - 87)
+  else if 65 ≤ b && b ≤ 70 then some (b.toNat - 55)
   else none
 
-/-- one literal end point inside a class -/
-def clsChar (perl : Bool) : Bytes → Option (UInt8 × Bytes)
-  | 0x5c :: b :: rest =>
-    match escape perl b with
-    | some (false, [(x, y)]) => if x = y then some (x, rest) else none
+def litOf (v : Nat) (rest : Bytes) : Option (Bool × List Rg × Bytes) :=
+  if v < 0x80 then some (false, [(v.toUInt8, v.toUInt8)], rest) else none
+
+/-- what follows a backslash, outside and inside a class: a Perl class (`perl` only) or one literal byte
+(`parsePerlClassEscape` / `parseEscape`); `(negated, ranges, rest)` -/
+def escTok (perl : Bool) : Bytes → Option (Bool × List Rg × Bytes)
+  | [] => none
+  | b :: rest =>
+    if b = 0x78 then                                   -- \xHH  \x{H…}
+      match rest with
+      | 0x7b :: r =>
+        let ds := r.takeWhile fun c => (hexVal c).isSome
+        match r.drop ds.length with
+        | 0x7d :: r2 =>
+          if ds.isEmpty || ds.length > 6 then none
+          else litOf (ds.foldl (fun acc d => acc * 16 + (hexVal d).getD 0) 0) r2
+        | _ => none
+      | h1 :: h2 :: r =>
+        match hexVal h1, hexVal h2 with
+        | some x, some y => litOf (x * 16 + y) r
+        | _, _ => none
+      | _ => none
+    else if isOct b then                               -- \0 \012 \101 (a single 1-7 is a back reference: refused)
+      let more := (rest.take 2).takeWhile isOct
+      if b != 48 && more.isEmpty then none
+      else litOf ((b :: more).foldl (fun acc d => acc * 8 + (d.toNat - 48)) 0) (rest.drop more.length)
+    else if b = 0x64 then (if perl then some (false, digitR, rest) else none)        -- \d   (PerlX only)
+    else if b = 0x44 then (if perl then some (true, digitR, rest) else none)    -- \D
+    else if b = 0x77 then (if perl then some (false, wordR, rest) else none)    -- \w
+    else if b = 0x57 then (if perl then some (true, wordR, rest) else none)     -- \W
+    else if b = 0x73 then (if perl then some (false, spaceR, rest) else none)   -- \s
+    else if b = 0x53 then (if perl then some (true, spaceR, rest) else none)    -- \S
+    else if b = 0x61 then some (false, [(7, 7)], rest)    -- \a
+    else if b = 0x66 then some (false, [(12, 12)], rest)  -- \f
+    else if b = 0x6e then some (false, [(10, 10)], rest)  -- \n
+    else if b = 0x72 then some (false, [(13, 13)], rest)  -- \r
+    else if b = 0x74 then some (false, [(9, 9)], rest)    -- \t
+    else if b = 0x76 then some (false, [(11, 11)], rest)  -- \v
+    else if b < 0x80 && !isAlnum b then some (false, [(b, b)], rest)
+    else none
+
+/-- `[:name:]` -/
+def namedClass (name : Bytes) : Option (List Rg) :=
+  if name = "alnum".toUTF8.toList then some [(48, 57), (65, 90), (97, 122)]
+  else if name = "alpha".toUTF8.toList then some [(65, 90), (97, 122)]
+  else if name = "ascii".toUTF8.toList then some [(0, 127)]
+  else if name = "blank".toUTF8.toList then some [(9, 9), (32, 32)]
+  else if name = "cntrl".toUTF8.toList then some [(0, 31), (127, 127)]
+  else if name = "digit".toUTF8.toList then some [(48, 57)]
+  else if name = "graph".toUTF8.toList then some [(33, 126)]
+  else if name = "lower".toUTF8.toList then some [(97, 122)]
+  else if name = "print".toUTF8.toList then some [(32, 126)]
+  else if name = "punct".toUTF8.toList then some [(33, 47), (58, 64), (91, 96), (123, 126)]
+  else if name = "space".toUTF8.toList then some [(9, 13), (32, 32)]
+  else if name = "upper".toUTF8.toList then some [(65, 90)]
+  else if name = "word".toUTF8.toList then some [(48, 57), (65, 90), (95, 95), (97, 122)]
+  else if name = "xdigit".toUTF8.toList then some [(48, 57), (65, 70), (97, 102)]
+  else none
+
+/-- the text up to the first `:]` -/
+def takeClassName : Bytes → Bytes → Option (Bytes × Bytes)
+  | 0x3a :: 0x5d :: rest, acc => some (acc.reverse, rest)
+  | b :: rest, acc => takeClassName rest (b :: acc)
+  | [], _ => none
+
+/-- one literal end point inside a class (`parseClassChar`: an escape here is never a Perl class) -/
+def clsChar : Bytes → Option (UInt8 × Bytes)
+  | 0x5c :: rest =>
+    match escTok false rest with
+    | some (false, [(x, _)], r) => some (x, r)
     | _ => none
-  | b :: rest => if b < 0x80 && b != 0x5b && b != 0x5d && b != 0x5c then some (b, rest) else none
+  | 0x5b :: 0x3a :: _ => none          -- `[:` without a closing `:]` would be a literal `[`: left out
+  | b :: rest => if b < 0x80 then some (b, rest) else none
   | [] => none
 
-/-- the items of a class up to the closing `]`; fuel = remaining length -/
-def clsItems (perl : Bool) : Nat → Bytes → List (UInt8 × UInt8) → Option (List (UInt8 × UInt8) × Bytes)
+/-- the items of a class up to the closing `]` (`parseClass`); fuel = remaining length -/
+def clsItems (perl fold : Bool) : Nat → Bytes → List Rg → Option (List Rg × Bytes)
   | 0, _, _ => none
   | f + 1, inp, acc =>
+    let first := acc.isEmpty
     match inp with
     | [] => none
-    | 0x5d :: rest => if acc.isEmpty then none else some (acc.reverse, rest)
-    | 0x5c :: b :: rest =>
-      match escape perl b with
-      | some (false, [(x, y)]) =>
-        if x = y then
-          -- a literal: possibly the start of a range
-          match rest with
-          | 0x2d :: 0x5d :: _ => clsItems perl f rest ((x, x) :: acc)
-          | 0x2d :: rest' =>
-            match clsChar perl rest' with
-            | some (hi, rest'') => if x ≤ hi then clsItems perl f rest'' ((x, hi) :: acc) else none
-            | none => none
-          | _ => clsItems perl f rest ((x, x) :: acc)
-        else clsItems perl f rest ((x, y) :: acc)
-      | some (false, rs) => clsItems perl f rest (rs.reverse ++ acc)
-      | _ => none
-    | b :: rest =>
-      if b ≥ 0x80 || b = 0x5b then none
+    | b0 :: rest0 =>
+      if b0 = 0x5d && !first then some (acc.reverse, rest0)
+      -- POSIX: `-` is only okay unescaped as first or last in class
+      else if b0 = 0x2d && !perl && !first && (match rest0 with | 0x5d :: _ => false | _ => true) then none
       else
-        match rest with
-        | 0x2d :: 0x5d :: _ => clsItems perl f rest ((b, b) :: acc)
-        | 0x2d :: rest' =>
-          if b = 0x2d then none else
-          match clsChar perl rest' with
-          | some (hi, rest'') => if b ≤ hi then clsItems perl f rest'' ((b, hi) :: acc) else none
+        let named : Option (Option (List Rg × Bytes)) :=
+          match inp with
+          | 0x5b :: 0x3a :: r =>
+            match takeClassName r [] with
+            | some (nm, r2) =>
+              let (neg, nm) := match nm with
+                | 0x5e :: t => (true, t)
+                | _ => (false, nm)
+              match namedClass nm with
+              | some rs => some (some (if neg then compl (foldAll fold rs) else rs, r2))
+              | none => some none
+            | none => none
+          | 0x5c :: r =>
+            if !perl then none else
+            match escTok true r with
+            | some (neg, rs, r2) =>
+              if rs.length > 1 || neg || rs == digitR then some (some (if neg then compl (foldAll fold rs) else rs, r2)) else none
+            | none => none
+          | _ => none
+        match named with
+        | some none => none
+        | some (some (rs, r2)) => clsItems perl fold f r2 (rs.reverse ++ acc)
+        | none =>
+          match clsChar inp with
           | none => none
-        | _ => clsItems perl f rest ((b, b) :: acc)
+          | some (lo, r1) =>
+            match r1 with
+            | 0x2d :: 0x5d :: _ => clsItems perl fold f r1 ((lo, lo) :: acc)
+            | 0x2d :: r2 =>
+              match clsChar r2 with
+              | some (hi, r3) => if lo ≤ hi then clsItems perl fold f r3 ((lo, hi) :: acc) else none
+              | none => none
+            | _ => clsItems perl fold f r1 ((lo, lo) :: acc)
 
 def isRepOp (b : UInt8) : Bool := b = 0x2a || b = 0x2b || b = 0x3f
 
@@ -105,7 +188,7 @@ def isRepOp (b : UInt8) : Bool := b = 0x2a || b = 0x2b || b = 0x3f
 def takeName : Bytes → Bytes → Option (Bytes × Bytes)
   | 0x3e :: rest, acc => if acc.isEmpty then none else some (acc.reverse, rest)
   | b :: rest, acc =>
-    if (48 ≤ b && b ≤ 57) || (65 ≤ b && b ≤ 90) || (97 ≤ b && b ≤ 122) || b = 95 then takeName rest (b :: acc) else none
+    if isAlnum b || b = 95 then takeName rest (b :: acc) else none
   | [], _ => none
 
 def catS (a b : Re) : Re :=
@@ -113,27 +196,39 @@ def catS (a b : Re) : Re :=
   | .eps => a
   | _ => .cat a b
 
-/-- decimal number as `parseInt` reads it: no leading zero, at most 4 digits here (`> 1000` is refused anyway) -/
-def takeNum : Bytes → Option (Nat × Bytes)
-  | inp =>
-    let ds := inp.takeWhile fun b => 48 ≤ b && b ≤ 57
-    if ds.isEmpty || ds.length > 4 || (ds.length ≥ 2 && ds.head? = some 48) then none
-    else some (ds.foldl (fun acc d => acc * 10 + (d.toNat - 48)) 0, inp.drop ds.length)
+/-- decimal number as `parseInt` reads it: digits, no leading zero -/
+def takeNum (inp : Bytes) : Option (Nat × Bytes) :=
+  let ds := inp.takeWhile fun b => 48 ≤ b && b ≤ 57
+  if ds.isEmpty || (ds.length ≥ 2 && ds.head? = some 48) then none
+  else some (ds.foldl (fun acc d => acc * 10 + (d.toNat - 48)) 0, inp.drop ds.length)
+
+/-- what stands after a `{`: not a repetition (the `{` is a literal), a repetition whose size Go refuses, or bounds -/
+inductive Rep
+  | lit
+  | err
+  | ok (min : Nat) (max : Option Nat) (rest : Bytes)
+
+def repCheck (n : Nat) (m : Option Nat) (r : Bytes) : Rep :=
+  if n > 1000 || m.any (· > 1000) || m.any (· < n) then .err else .ok n m r
 
 /-- `{n}` `{n,}` `{n,m}` after the `{` (`parseRepeat` + the size checks of the parse loop) -/
-def takeRepeat (inp : Bytes) : Option (Nat × Option Nat × Bytes) :=
+def takeRepeat (inp : Bytes) : Rep :=
   match takeNum inp with
-  | none => none
+  | none => .lit
   | some (n, rest) =>
-    if n > 1000 then none else
     match rest with
-    | 0x7d :: r => some (n, some n, r)
-    | 0x2c :: 0x7d :: r => some (n, none, r)
+    | 0x7d :: r => repCheck n (some n) r
+    | 0x2c :: 0x7d :: r => repCheck n none r
     | 0x2c :: r =>
       match takeNum r with
-      | some (m, 0x7d :: r2) => if m > 1000 || m < n then none else some (n, some m, r2)
-      | _ => none
-    | _ => none
+      | some (m, 0x7d :: r2) => repCheck n (some m) r2
+      | _ => .lit
+    | _ => .lit
+
+def isRepStart (inp : Bytes) : Bool :=
+  match inp with
+  | b :: rest => isRepOp b || (b = 0x7b && (match takeRepeat rest with | .lit => false | _ => true))
+  | [] => false
 
 /-- `repeatIsValid`: the smallest budget a repetition with these bounds over a body needing `sub` needs -/
 def repeatNeed (min : Nat) (max : Option Nat) (sub : Nat) : Nat :=
@@ -143,110 +238,163 @@ def repeatNeed (min : Nat) (max : Option Nat) (sub : Nat) : Nat :=
     let m := max.getD min
     if m = 0 then sub else Nat.max m (m * sub)
 
-/-- postfix operators after an atom (`need` = the atom's); a second operator is refused (an error in Perl
-mode, a repetition of a repetition in POSIX mode) -/
-def postOp (perl : Bool) (a : Re) (need : Nat) (inp : Bytes) : Option (Re × Bytes × Nat) :=
+/-- postfix operators after an atom (`need` = the atom's; `swap` = flag `U`); a second operator is refused (an
+error in Perl mode, a repetition of a repetition in POSIX mode) -/
+def postOp (perl swap : Bool) (a : Re) (need : Nat) (inp : Bytes) : Option (Re × Bytes × Nat) :=
   match inp with
   | op :: rest =>
     if isRepOp op || op = 0x7b then
-      let bounds : Option (Nat × Option Nat × Bytes) :=
-        if op = 0x7b then takeRepeat rest
-        else if op = 0x3f then some (0, some 1, rest)
-        else if op = 0x2a then some (0, none, rest)
-        else some (1, none, rest)
+      let bounds : Option (Option (Nat × Option Nat × Bytes)) :=
+        if op = 0x7b then
+          match takeRepeat rest with
+          | .lit => some none
+          | .err => none
+          | .ok n m r => some (some (n, m, r))
+        else if op = 0x3f then some (some (0, some 1, rest))
+        else if op = 0x2a then some (some (0, none, rest))
+        else some (some (1, none, rest))
       match bounds with
       | none => none
-      | some (min, max, rest) =>
+      | some none => some (a, inp, need)          -- a literal `{`: no operator here
+      | some (some (min, max, rest)) =>
         let (lazy, rest) := match rest with
           | 0x3f :: r => if perl then (true, r) else (false, rest)
           | _ => (false, rest)
-        let doubled := match rest with
-          | b :: _ => isRepOp b || b = 0x7b
-          | [] => false
         let nd := repeatNeed min max need
-        if doubled then none
+        if isRepStart rest then none
         else if max.isNone && nullable a then none
         else if nd > 1000 then none
-        else some (repeatRe (!lazy) a min max, rest, nd)
+        else some (repeatRe (lazy == swap) a min max, rest, nd)
     else some (a, inp, need)
   | [] => some (a, inp, need)
 
-mutual
-def pAlt : Nat → Bool → Bool → Bytes → PSt → PR
+/-- the flags of `(?flags)` / `(?flags:` after the `(?` (`parsePerlFlags`): the new state, whether a group was
+opened (`:`), the rest -/
+def flagLoop : Nat → Bytes → PSt → Bool → Bool → Option (PSt × Bool × Bytes)
   | 0, _, _, _, _ => none
-  | f + 1, perl, fold, inp, st =>
-    match pCat f perl fold inp st with
+  | f + 1, inp, st, neg, saw =>
+    match inp with
+    | [] => none
+    | c :: rest =>
+      if c = 0x69 then flagLoop f rest { st with fold := !neg } neg true
+      else if c = 0x6d then flagLoop f rest { st with multi := !neg } neg true
+      else if c = 0x73 then flagLoop f rest { st with dotNL := !neg } neg true
+      else if c = 0x55 then flagLoop f rest { st with swap := !neg } neg true
+      else if c = 0x2d then (if neg then none else flagLoop f rest st true false)
+      else if c = 0x3a || c = 0x29 then (if neg && !saw then none else some (st, c = 0x3a, rest))
+      else none
+
+/-- `\Q…\E` rewritten as escaped literals -/
+def quoteLit : Bytes → Bytes × Bytes
+  | 0x5c :: 0x45 :: rest => ([], rest)
+  | b :: rest =>
+    let (q, r) := quoteLit rest
+    ((if isAlnum b then [b] else [0x5c, b]) ++ q, r)
+  | [] => ([], [])
+
+def restoreFlags (outer st : PSt) : PSt :=
+  { st with fold := outer.fold, dotNL := outer.dotNL, multi := outer.multi, swap := outer.swap }
+
+mutual
+def pAlt : Nat → Bool → Bytes → PSt → PR
+  | 0, _, _, _ => none
+  | f + 1, perl, inp, st =>
+    match pCat f perl inp st with
     | none => none
     | some (a, rest, st) =>
       match rest with
       | 0x7c :: rest' =>
-        match pAlt f perl fold rest' st with
+        match pAlt f perl rest' st with
         | some (b, r2, st2) => some (.alt a b, r2, { st2 with need := Nat.max st.need st2.need })
         | none => none
       | _ => some (a, rest, st)
 
-def pCat : Nat → Bool → Bool → Bytes → PSt → PR
-  | 0, _, _, _, _ => none
-  | f + 1, perl, fold, inp, st =>
+def pCat : Nat → Bool → Bytes → PSt → PR
+  | 0, _, _, _ => none
+  | f + 1, perl, inp, st =>
     match inp with
     | [] => some (.eps, [], { st with need := 0 })
     | 0x7c :: _ => some (.eps, inp, { st with need := 0 })
     | 0x29 :: _ => some (.eps, inp, { st with need := 0 })
     | _ =>
-      match pAtom f perl fold inp st with
-      | none => none
-      | some (a, rest, st) =>
-        match postOp perl a st.need rest with
+      -- `(?flags)` changes the parser's flags for the rest of the enclosing group; `\Q…\E`
+      let special : Option (Option (Bytes × PSt)) :=
+        if !perl then none else
+        match inp with
+        | 0x28 :: 0x3f :: r =>
+          (match r with
+           | 0x50 :: _ => none
+           | 0x3c :: _ => none
+           | _ =>
+             match flagLoop (r.length + 1) r st false false with
+             | some (st', false, rest) => some (some (rest, st'))
+             | some (_, true, _) => none
+             | none => some none)
+        | 0x5c :: 0x51 :: r =>
+          let (q, rest) := quoteLit r
+          some (some (q ++ rest, st))
+        | _ => none
+      match special with
+      | some none => none
+      | some (some (rest, st')) =>
+        if isRepStart rest && (match inp with | 0x28 :: _ => true | _ => (quoteLit (inp.drop 2)).1.isEmpty) then none
+        else pCat f perl rest st'
+      | none =>
+        match pAtom f perl inp st with
         | none => none
-        | some (a, rest, nd) =>
-          match pCat f perl fold rest st with
+        | some (a, rest, st) =>
+          match postOp perl st.swap a st.need rest with
           | none => none
-          | some (b, r2, st2) => some (catS a b, r2, { st2 with need := Nat.max nd st2.need })
+          | some (a, rest, nd) =>
+            match pCat f perl rest st with
+            | none => none
+            | some (b, r2, st2) => some (catS a b, r2, { st2 with need := Nat.max nd st2.need })
 
-def pAtom : Nat → Bool → Bool → Bytes → PSt → PR
-  | 0, _, _, _, _ => none
-  | f + 1, perl, fold, inp, st =>
+def pAtom : Nat → Bool → Bytes → PSt → PR
+  | 0, _, _, _ => none
+  | f + 1, perl, inp, st =>
     match inp with
     | [] => none
     | 0x28 :: 0x3f :: rest =>
       if !perl then none else                    -- POSIX mode has no `(?`
-      match rest with
-      | 0x3a :: rest =>                          -- (?:
-        match pAlt f perl fold rest st with
-        | some (a, 0x29 :: r2, st2) => some (a, r2, st2)
+      let named : Option Bytes := match rest with
+        | 0x50 :: 0x3c :: r => some r
+        | 0x3c :: r => some r
         | _ => none
-      | _ =>                                     -- (?P<name> / (?<name>
-        let rest := match rest with
-          | 0x50 :: r => r
-          | _ => rest
-        match rest with
-        | 0x3c :: rest =>
-          match takeName rest [] with
-          | some (name, rest) =>
-            if st.names.contains name then none else
-            let n := st.ng + 1
-            match pAlt f perl fold rest { st with ng := n, names := name :: st.names } with
-            | some (a, 0x29 :: r2, st2) => some (.grp n a, r2, st2)
-            | _ => none
-          | none => none
+      match named with
+      | some rest =>                             -- (?P<name> / (?<name>
+        match takeName rest [] with
+        | some (name, rest) =>
+          if st.names.contains name then none else
+          let n := st.ng + 1
+          match pAlt f perl rest { st with ng := n, names := name :: st.names } with
+          | some (a, 0x29 :: r2, st2) => some (.grp n a, r2, restoreFlags st st2)
+          | _ => none
+        | none => none
+      | none =>                                  -- (?flags:
+        match flagLoop (rest.length + 1) rest st false false with
+        | some (st', true, rest) =>
+          match pAlt f perl rest st' with
+          | some (a, 0x29 :: r2, st2) => some (a, r2, restoreFlags st st2)
+          | _ => none
         | _ => none
     | 0x28 :: rest =>
       let n := st.ng + 1
-      match pAlt f perl fold rest { st with ng := n, names := [] :: st.names } with
-      | some (a, 0x29 :: r2, st2) => some (.grp n a, r2, st2)
+      match pAlt f perl rest { st with ng := n, names := [] :: st.names } with
+      | some (a, 0x29 :: r2, st2) => some (.grp n a, r2, restoreFlags st st2)
       | _ => none
     | 0x5b :: 0x5e :: rest =>
-      match clsItems perl (rest.length + 1) rest [] with
+      match clsItems perl st.fold (rest.length + 1) rest [] with
       -- without `ClassNL` (POSIX mode) the line feed is added before the negation
-      | some (rs, r2) => some (mkCls fold true (if perl then rs else (10, 10) :: rs), r2, { st with need := 0 })
+      | some (rs, r2) => some (mkCls st.fold true (if perl then rs else (10, 10) :: rs), r2, { st with need := 0 })
       | none => none
     | 0x5b :: rest =>
-      match clsItems perl (rest.length + 1) rest [] with
-      | some (rs, r2) => some (mkCls fold false rs, r2, { st with need := 0 })
+      match clsItems perl st.fold (rest.length + 1) rest [] with
+      | some (rs, r2) => some (mkCls st.fold false rs, r2, { st with need := 0 })
       | none => none
-    | 0x2e :: rest => some (.cls true [(10, 10)], rest, { st with need := 0 })
-    | 0x5e :: rest => some (.look (if perl then .bot else .bol), rest, { st with need := 0 })
-    | 0x24 :: rest => some (.look (if perl then .eot else .eol), rest, { st with need := 0 })
+    | 0x2e :: rest => some (.cls true (if st.dotNL then [] else [(10, 10)]), rest, { st with need := 0 })
+    | 0x5e :: rest => some (.look (if perl && !st.multi then .bot else .bol), rest, { st with need := 0 })
+    | 0x24 :: rest => some (.look (if perl && !st.multi then .eot else .eol), rest, { st with need := 0 })
     | 0x5c :: b :: rest =>
       let lk : Option Look :=
         if !perl then none
@@ -258,12 +406,13 @@ def pAtom : Nat → Bool → Bool → Bytes → PSt → PR
       match lk with
       | some k => some (.look k, rest, { st with need := 0 })
       | none =>
-        match escape perl b with
-        | some (neg, rs) => some (mkCls fold neg rs, rest, { st with need := 0 })
+        match escTok perl (b :: rest) with
+        | some (neg, rs, r2) => some (mkCls st.fold neg rs, r2, { st with need := 0 })
         | none => none
     | b :: rest =>
-      if b ≥ 0x80 || isRepOp b || b = 0x7b || b = 0x7d || b = 0x5d || b = 0x29 || b = 0x7c || b = 0x5c then none
-      else some (mkCls fold false [(b, b)], rest, { st with need := 0 })
+      if b ≥ 0x80 || isRepOp b || b = 0x29 || b = 0x7c || b = 0x5c then none
+      else if b = 0x7b && (match takeRepeat rest with | .lit => false | _ => true) then none
+      else some (mkCls st.fold false [(b, b)], rest, { st with need := 0 })
 end
 
 structure Parsed where
@@ -272,13 +421,9 @@ structure Parsed where
   /-- `regexp.SubexpNames()`: entry 0 is the whole match (empty name) -/
   subexpNames : List Bytes
 
-/-- the literal `(?i)` -/
-def icFlag : Bytes := [0x28, 0x3f, 0x69, 0x29]
-
 /-- `posix = false`: `regexp.Compile`; `posix = true`: `regexp.CompilePOSIX` -/
 def parseEx (posix : Bool) (pat : Bytes) : Option Parsed :=
-  let (fold, body) := if !posix && icFlag.isPrefixOf pat then (true, pat.drop 4) else (false, pat)
-  match pAlt (4 * body.length + 8) (!posix) fold body {} with
+  match pAlt (4 * pat.length + 8) (!posix) pat {} with
   | some (r, [], st) => some ⟨r, st.ng, [] :: st.names.reverse⟩
   | _ => none
 
